@@ -160,7 +160,7 @@ static std::string dbits(double x)
     std::uint64_t u = 0;
     std::memcpy(&u, &x, sizeof u);
     char buf[32];
-    std::snprintf(buf, sizeof buf, "%llx", static_cast<unsigned long long>(u));
+    std::snprintf(buf, sizeof buf, "%llu", static_cast<unsigned long long>(u));
     return buf;
 }
 
@@ -690,7 +690,18 @@ bool vh::run_case(std::string const& op, Toks& in, Out& impl, Out& ref)
         impl.tok("not-instantiated");
         return true;
     }
-    auto id = op_id(op);
+    // "ub_<op>": an input on which the code has undefined behaviour (signed overflow, division by zero). Only the
+    // variant built with -DC12_UBSAN (UBSan in trap mode; the supervisor reports the trap as "crash 4") executes it.
+    std::string name = op;
+    if (name.rfind("ub_", 0) == 0) {
+#ifdef C12_UBSAN
+        name = name.substr(3);
+#else
+        impl.tok("skip");
+        return true;
+#endif
+    }
+    auto id = op_id(name);
     if (id == OP_NONE) { return false; }
     return e.run(id, in, impl, ref);
 }
